@@ -93,7 +93,7 @@ pub fn run(ctx: &Ctx) -> i32 {
             fns: C16_FNS.to_vec(),
             max_len: ctx.tier.pick(48, 96),
             aligns: if thorough { vec![0, 1, 2, 7, 8, 15] } else { vec![0, 3] },
-            two_defects: thorough,
+            two_defects: true,
             random_per_fn: ctx.n(30_000, 1_000_000),
             max_tokens: ctx.tier.pick(14, 40),
             force_scalar: false,
